@@ -65,6 +65,27 @@ Section Lockstep.
     intros m p' j' mv' Hin' Em Ek Esg Ejv EV' Ever. exact (Huq m p' j' mv' Hin' Em Ek Esg Ejv EV' Ever).
   Qed.
 
+  (* the commit theorem for a new block *)
+  Lemma commit_new_block Bs s V n j mv : Bs + 1 < U64 ->
+    justification_view (E := unit) true j = Ok mv -> vnum mv = V ->
+    justification_verify (p_g P) (p_e P) (p_C P) j = Ok tt ->
+    get_implied_block (E := unit) true (p_C P) (p_first P) j = Ok (n, None) ->
+    p_first P <= n -> 0 < V -> preach P s -> p_first P + V + 2 < U64 -> V + 1 <= Bs ->
+    (forall m, In m (g_soup s) -> msg_view (m_msg m) <= Bs) -> lock P s V n ->
+    In {| m_key := leader V; m_sig_ok := true; m_msg := MProposal (Some (pay n)) j |} (g_soup s) ->
+    uniq_prop P V j (Some (pay n)) (g_soup s) ->
+    forall k, hon k = true ->
+      up (sync_rounds P pay fetch 2 s) k /\ V < hview (sync_rounds P pay fetch 2 s) k /\
+      n < r_store_next (n_live (g_node (sync_rounds P pay fetch 2 s) k)).
+  Proof.
+    intros HBs Hjv Hmv Hjver Himp Hfn HV Hr Hh1 Hle Hsb Hlock Hin Huq.
+    assert (Hkind : (@None Z = None /\ Some (pay n) = Some (pay n) /\ p_pok P n (pay n) = true /\ p_psize P (pay n) <= p_maxpay P) \/
+                    (@None Z = Some (pay n) /\ Some (pay n) = None)).
+    { left. destruct Henv as (Hpok & Hsz & _). auto. }
+    exact (commit_two_rounds P HP pay fetch Henv V n j mv (Some (pay n)) (pay n) None Hjv Hmv Hjver Himp Hkind Hfn HV s Hr Bs
+             Hh1 HBs Hle Hsb Hlock Hin Huq (or_introl eq_refl) (fun H => False_ind _ (H eq_refl))).
+  Qed.
+
   (* progress: the first honest leader among V .. V+nb gets block n stored by everybody *)
   Theorem progress_from_lockstep (Bs : Z) : Bs + 1 < U64 -> forall nb s V n,
     preach P s -> 0 < V -> p_first P + V + Z.of_nat nb + 2 < U64 -> V + Z.of_nat nb + 1 <= Bs ->
@@ -81,14 +102,14 @@ Section Lockstep.
       destruct HLS as (Hfn & Hlock & _ & Hpend & _).
       destruct (Hpend Hhi) as (j & mv & Hjv & Hmv & Hjver & Himp & Hin & Huq).
       exists 1%nat. split; [lia|]. intros k Hk.
-      destruct (commit_two_rounds P HP pay fetch Henv V n j mv Hjv Hmv Hjver Himp Hfn HV s Hr Bs
-                  ltac:(lia) HBs ltac:(lia) Hsb Hlock Hin Huq k Hk) as (A & _ & C). auto.
+      destruct (commit_new_block Bs s V n j mv HBs Hjv Hmv Hjver Himp Hfn HV Hr ltac:(lia) ltac:(lia) Hsb Hlock Hin Huq k Hk)
+        as (A & _ & C). auto.
     - destruct (hon (leader V)) eqn:EL.
       + destruct HLS as (Hfn & Hlock & _ & Hpend & _).
         destruct (Hpend EL) as (j & mv & Hjv & Hmv & Hjver & Himp & Hin & Huq).
         exists 1%nat. split; [lia|]. intros k Hk.
-        destruct (commit_two_rounds P HP pay fetch Henv V n j mv Hjv Hmv Hjver Himp Hfn HV s Hr Bs
-                    ltac:(lia) HBs ltac:(lia) Hsb Hlock Hin Huq k Hk) as (A & _ & C). auto.
+        destruct (commit_new_block Bs s V n j mv HBs Hjv Hmv Hjver Himp Hfn HV Hr ltac:(lia) ltac:(lia) Hsb Hlock Hin Huq k Hk)
+          as (A & _ & C). auto.
       + destruct (lockstep_timeout Bs s V n HBs Hr HV ltac:(lia) ltac:(lia) Hsb HLS EL) as (Hr2 & Hsb2 & HLS2).
         assert (Hex : exists i', (i' <= nb)%nat /\ hon (leader (V + 1 + Z.of_nat i')) = true).
         { destruct i as [|i']; [rewrite Z.add_0_r in Hhi; congruence|].
